@@ -10,17 +10,23 @@
 #include <fcppt/intrusive/base.hpp>
 #include <fcppt/intrusive/list.hpp>
 #include <fcppt/signal/auto_connection.hpp>
+#include <fcppt/signal/auto_connection_container.hpp>
+#include <fcppt/signal/connection.hpp>
+#include <fcppt/signal/optional_auto_connection.hpp>
 #include <fcppt/signal/base.hpp>
 #include <fcppt/signal/object.hpp>
 #include <fcppt/signal/unregister/base.hpp>
 #include <fcppt/signal/unregister/function.hpp>
 
+#include <algorithm>
 #include <functional>
 #include <map>
 #include <memory>
 #include <optional>
 #include <string>
+#include <type_traits>
 #include <utility>
+#include <variant>
 #include <vector>
 
 namespace vspy
@@ -105,7 +111,9 @@ std::string names(std::vector<std::string> const &v)
   return r;
 }
 
-std::string walk_fwd(list_t &l)
+// forward walk with pre-increment; L is `list_t` or `list_t const` (iterator / const_iterator)
+template <typename L>
+std::string walk_fwd(L &l)
 {
   std::vector<std::string> v;
   unsigned steps = 0;
@@ -118,7 +126,57 @@ std::string walk_fwd(list_t &l)
   return names(v);
 }
 
-std::string walk_bwd(list_t &l)
+// the same loop written with `*it++`, `operator->` and `==`
+template <typename L>
+std::string walk_fwd_post(L &l)
+{
+  std::vector<std::string> v;
+  unsigned steps = 0;
+  auto it = l.begin();
+  while (!(it == l.end()))
+  {
+    if (++steps > walk_cap)
+      return "overrun";
+    base_t const *const via_arrow = it.operator->();
+    auto &ref = *it++;
+    if (static_cast<base_t const *>(&ref) != via_arrow)
+      return "arrow-mismatch";
+    v.push_back(node_name(via_arrow));
+  }
+  return names(v);
+}
+
+// the same loop through the iterator's own public members (what fcppt::iterator::base forwards to)
+template <typename L>
+std::string walk_fwd_members(L &l)
+{
+  std::vector<std::string> v;
+  unsigned steps = 0;
+  auto it = l.begin();
+  auto const e = l.end();
+  while (!it.equal(e))
+  {
+    if (++steps > walk_cap)
+      return "overrun";
+    v.push_back(node_name(static_cast<base_t const *>(&it.dereference())));
+    it.increment();
+  }
+  // and back again to begin()
+  std::vector<std::string> w;
+  while (!it.equal(l.begin()))
+  {
+    if (++steps > 2 * walk_cap + 2)
+      return "overrun";
+    it.decrement();
+    w.push_back(node_name(static_cast<base_t const *>(&it.dereference())));
+  }
+  if (!std::equal(v.rbegin(), v.rend(), w.begin(), w.end()))
+    return "member-mismatch";
+  return names(v);
+}
+
+template <typename L>
+std::string walk_bwd(L &l)
 {
   std::vector<std::string> v;
   unsigned steps = 0;
@@ -135,6 +193,99 @@ std::string walk_bwd(list_t &l)
   return names(v);
 }
 
+// backwards with `it--`: the returned iterator is the old position
+template <typename L>
+std::string walk_bwd_post(L &l)
+{
+  std::vector<std::string> v;
+  unsigned steps = 0;
+  auto it = l.end();
+  it--;
+  while (it != l.end())
+  {
+    if (++steps > walk_cap)
+      return "overrun";
+    auto const old = it--;
+    v.push_back(node_name(static_cast<base_t const *>(&*old)));
+  }
+  return names(v);
+}
+
+// ------------------------------------------------------------------ iterator slots
+constexpr unsigned max_iters = 8;
+using it_t = list_t::iterator;
+using cit_t = list_t::const_iterator;
+using slot_t = std::variant<std::monostate, it_t, cit_t>;
+slot_t its[max_iters];
+
+static_assert(std::is_same_v<std::iterator_traits<it_t>::iterator_category, std::bidirectional_iterator_tag>);
+static_assert(std::is_same_v<decltype(*std::declval<cit_t>()), elem const &>);
+static_assert(std::is_same_v<decltype(*std::declval<it_t>()), elem &>);
+
+// where an iterator stands, found with the public API only: `==` against end() of every live list, against
+// iterator{&element} of every live element and against the default-constructed iterator
+template <typename It>
+std::string iter_name(It const &it)
+{
+  if (it == It{})
+    return "null";
+  for (unsigned k = 0; k < max_lists; ++k)
+    if (lists[k])
+    {
+      bool e = false;
+      if constexpr (std::is_same_v<It, it_t>)
+        e = it == lists[k]->end();
+      else
+        e = it == static_cast<list_t const &>(*lists[k]).end();
+      if (e)
+        return "h" + std::to_string(k);
+    }
+  for (unsigned e = 0; e < max_elems; ++e)
+    if (elems[e])
+    {
+      if constexpr (std::is_same_v<It, it_t>)
+      {
+        if (it == it_t{static_cast<base_t *>(elems[e].get())})
+          return "e" + std::to_string(e);
+      }
+      else if (it == cit_t{static_cast<base_t const *>(elems[e].get())})
+        return "e" + std::to_string(e);
+    }
+  return "?";
+}
+
+std::string slot_name(slot_t const &s)
+{
+  if (auto const *p = std::get_if<it_t>(&s))
+    return iter_name(*p);
+  if (auto const *p = std::get_if<cit_t>(&s))
+    return iter_name(*p) + "c";
+  return "none";
+}
+
+// the caller may not use an iterator to a destroyed node: drop the slots that stand on it (decided with `==` before the delete)
+void drop_slots_at_elem(unsigned e)
+{
+  for (auto &s : its)
+  {
+    if (auto const *p = std::get_if<it_t>(&s); p && *p == it_t{static_cast<base_t *>(elems[e].get())})
+      s = std::monostate{};
+    else if (auto const *q = std::get_if<cit_t>(&s); q && *q == cit_t{static_cast<base_t const *>(elems[e].get())})
+      s = std::monostate{};
+  }
+}
+
+void drop_slots_at_head(unsigned k)
+{
+  for (auto &s : its)
+  {
+    if (auto const *p = std::get_if<it_t>(&s); p && *p == lists[k]->end())
+      s = std::monostate{};
+    else if (auto const *q = std::get_if<cit_t>(&s); q && *q == static_cast<list_t const &>(*lists[k]).end())
+      s = std::monostate{};
+  }
+}
+
 std::string list_dump()
 {
   std::string r;
@@ -142,15 +293,20 @@ std::string list_dump()
     if (lists[k])
     {
       list_t const &cl = *lists[k];
-      // const and non-const iteration must agree
-      unsigned n1 = 0, n2 = 0;
-      for (auto it = cl.begin(); it != cl.end() && n1 <= walk_cap; ++it)
-        ++n1;
-      std::string const f = walk_fwd(*lists[k]);
-      for (auto it = lists[k]->begin(); it != lists[k]->end() && n2 <= walk_cap; ++it)
-        ++n2;
-      r += " L" + std::to_string(k) + "=" + (n1 == n2 ? f : std::string("const-mismatch")) + "|" + walk_bwd(*lists[k]) + "|" +
-           (cl.empty() ? "1" : "0");
+      // const and non-const iteration, pre- and post-increment / decrement must all agree
+      std::string f = walk_fwd(*lists[k]);
+      if (walk_fwd(cl) != f)
+        f = "const-mismatch";
+      else if (walk_fwd_post(*lists[k]) != f || walk_fwd_post(cl) != f)
+        f = "post-mismatch";
+      else if (walk_fwd_members(*lists[k]) != f || walk_fwd_members(cl) != f)
+        f = "member-mismatch";
+      std::string b = walk_bwd(*lists[k]);
+      if (walk_bwd(cl) != b)
+        b = "const-mismatch";
+      else if (walk_bwd_post(*lists[k]) != b || walk_bwd_post(cl) != b)
+        b = "post-mismatch";
+      r += " L" + std::to_string(k) + "=" + f + "|" + b + "|" + (cl.empty() ? "1" : "0");
     }
   for (unsigned k = 0; k < max_lists; ++k)
     if (lists[k])
@@ -164,16 +320,32 @@ std::string list_dump()
       base_t const &b = *elems[e];
       r += " e" + std::to_string(e) + ":" + node_name(spy_links::prev(b)) + "," + node_name(spy_links::next(b));
     }
+  for (unsigned i = 0; i < max_iters; ++i)
+    if (its[i].index() != 0)
+      r += " i" + std::to_string(i) + "=" + slot_name(its[i]);
   return r;
 }
 
 // ------------------------------------------------------------------ signals
+// four instantiations: S = int(int)/unregister::base, P = int(int)/signal::base, V = void(int)/unregister::base, W = void(int)/signal::base
 using usig_t = fcppt::signal::object<int(int), fcppt::signal::unregister::base>;
 using psig_t = fcppt::signal::object<int(int), fcppt::signal::base>;
+using vsig_t = fcppt::signal::object<void(int), fcppt::signal::unregister::base>;
+using wsig_t = fcppt::signal::object<void(int), fcppt::signal::base>;
 
 std::unique_ptr<usig_t> usigs[max_lists];
 std::unique_ptr<psig_t> psigs[max_lists];
-std::optional<fcppt::signal::auto_connection> conns[max_elems];
+std::unique_ptr<vsig_t> vsigs[max_lists];
+std::unique_ptr<wsig_t> wsigs[max_lists];
+
+// owners of connections
+constexpr unsigned max_conts = 4;
+fcppt::signal::optional_auto_connection holders[max_elems];
+fcppt::signal::auto_connection_container conts[max_conts];
+// bookkeeping for the validity of operation lines only (which connection id an owner holds; -1 = none)
+int held[max_elems];
+std::vector<int> cheld[max_conts];
+
 std::map<unsigned, unsigned> unreg_count;
 std::vector<int> call_log;
 
@@ -181,7 +353,24 @@ struct overrun_exc
 {
 };
 
-bool sig_live(unsigned s) { return usigs[s] || psigs[s]; }
+int sig_family(unsigned s) { return usigs[s] ? 0 : psigs[s] ? 1 : vsigs[s] ? 2 : wsigs[s] ? 3 : -1; }
+bool sig_live(unsigned s) { return sig_family(s) >= 0; }
+
+template <typename F>
+auto with_sig(unsigned s, F f)
+{
+  switch (sig_family(s))
+  {
+  case 0:
+    return f(*usigs[s]);
+  case 1:
+    return f(*psigs[s]);
+  case 2:
+    return f(*vsigs[s]);
+  default:
+    return f(*wsigs[s]);
+  }
+}
 
 int cb_fn(int f, int arg) { return (f * 7 + arg) % 1000; }
 long long comb_fn(long long c, long long acc, long long x) { return (acc * 31 + x + c) % 1000003; }
@@ -193,13 +382,30 @@ typename Sig::combiner_function make_combiner(int c)
 }
 
 template <typename Sig>
+constexpr bool is_void_sig = std::is_void_v<typename Sig::result_type>;
+
+// a call may be nested inside another one (an unregister function that runs while a callback lets go of a connection
+// looks at every signal): the outer log is put aside and restored
+struct log_guard
+{
+  std::vector<int> saved;
+  log_guard() { saved.swap(call_log); }
+  ~log_guard() { call_log.swap(saved); }
+  log_guard(log_guard const &) = delete;
+  log_guard &operator=(log_guard const &) = delete;
+};
+
+template <typename Sig>
 std::string call_str(Sig &s, int init, int arg)
 {
-  call_log.clear();
-  int r = 0;
+  log_guard const guard{};
+  std::string res = "v";
   try
   {
-    r = s(typename Sig::initial_value{init}, arg);
+    if constexpr (is_void_sig<Sig>)
+      s(arg);
+    else
+      res = std::to_string(s(typename Sig::initial_value{init}, arg));
   }
   catch (std::bad_function_call const &)
   {
@@ -211,15 +417,59 @@ std::string call_str(Sig &s, int init, int arg)
   }
   if (call_log.size() > walk_cap)
     return "overrun";
-  return vh::join(call_log) + ":" + std::to_string(r);
+  return vh::join(call_log) + ":" + res;
+}
+
+// the callbacks of the connections met when iterating connections() from end() backwards (const_iterator and
+// iterator, `--it` and `it--` must agree)
+template <typename Sig>
+std::string bwd_str(Sig &s)
+{
+  auto &l = s.connections();
+  auto const &cl = l;
+  std::vector<int> a, b;
+  log_guard const guard{};
+  try
+  {
+    unsigned steps = 0;
+    auto it = l.end();
+    while (true)
+    {
+      --it;
+      if (it == l.end())
+        break;
+      if (++steps > walk_cap)
+        return "overrun";
+      (void)it->function()(2);
+    }
+    a = call_log;
+    call_log.clear();
+    steps = 0;
+    auto cit = cl.end();
+    cit--;
+    while (cit != cl.end())
+    {
+      if (++steps > walk_cap)
+        return "overrun";
+      auto const old = cit--;
+      (void)(*old).function()(2);
+    }
+    b = call_log;
+  }
+  catch (overrun_exc const &)
+  {
+    return "overrun";
+  }
+  return a == b ? vh::join(a) : std::string("const-mismatch");
 }
 
 std::string call_any(unsigned s, int init, int arg)
 {
-  return usigs[s] ? call_str(*usigs[s], init, arg) : call_str(*psigs[s], init, arg);
+  return with_sig(s, [init, arg](auto &sg) { return call_str(sg, init, arg); });
 }
 
-std::string unreg_saw;
+// every unregister function that ran during the current operation line, in order, with what it saw
+std::vector<std::string> unreg_saw;
 
 // what every live signal would invoke right now (used from inside an unregister function)
 std::string sig_calls()
@@ -231,14 +481,23 @@ std::string sig_calls()
   return r.empty() ? "-" : r;
 }
 
+std::string saw_suffix()
+{
+  std::string r;
+  for (auto const &e : unreg_saw)
+    r += (r.empty() ? "" : ";") + e;
+  return " saw=" + (r.empty() ? std::string("-") : r);
+}
+
 std::string sig_dump()
 {
   std::string r;
   for (unsigned s = 0; s < max_lists; ++s)
     if (sig_live(s))
     {
-      bool const e = usigs[s] ? usigs[s]->empty() : psigs[s]->empty();
-      r += " S" + std::to_string(s) + "=" + call_any(s, 1, 2) + "|" + (e ? "1" : "0");
+      bool const e = with_sig(s, [](auto &sg) { return sg.empty(); });
+      std::string const bw = with_sig(s, [](auto &sg) { return bwd_str(sg); });
+      r += " S" + std::to_string(s) + "=" + call_any(s, 1, 2) + "|" + (e ? "1" : "0") + "|" + bw;
     }
   std::string u;
   for (auto const &[id, cnt] : unreg_count)
@@ -247,23 +506,130 @@ std::string sig_dump()
   return r + " unreg=" + (u.empty() ? "-" : u);
 }
 
+// callbacks with effects: what callback f does besides returning its value, while `acts_on` (inside rcall / rvcall)
+struct action
+{
+  int kind = 0; // 0 nothing, 1 reset holder a, 2 clear container a, 3 connect callback c (unregister d) to signal b into holder a
+  unsigned a = 0, b = 0, c = 0, d = 0;
+};
+action actions[100];
+bool acts_on = false;
+void run_action(int f);
+
 auto make_callback(int f)
 {
   return [f](int arg)
   {
+    // the effect may destroy the connection this function object lives in: nothing is read from the closure afterwards
+    int const id = f;
     // a runaway iteration must end: the watchdog would catch it, but an exception is cheaper
     if (call_log.size() > walk_cap + 1)
       throw overrun_exc{};
-    call_log.push_back(f);
-    return cb_fn(f, arg);
+    call_log.push_back(id);
+    if (acts_on)
+      run_action(id);
+    return cb_fn(id, arg);
   };
+}
+
+auto make_void_callback(int f)
+{
+  return [f](int)
+  {
+    int const id = f;
+    if (call_log.size() > walk_cap + 1)
+      throw overrun_exc{};
+    call_log.push_back(id);
+    if (acts_on)
+      run_action(id);
+  };
+}
+
+fcppt::signal::unregister::function make_unregister(unsigned d)
+{
+  return fcppt::signal::unregister::function{[d]
+                                             {
+                                               ++unreg_count[d];
+                                               // the dying connection must already be out of every signal
+                                               bool const saved = acts_on;
+                                               acts_on = false;
+                                               unreg_saw.push_back("u" + std::to_string(d) + "@" + sig_calls());
+                                               acts_on = saved;
+                                             }};
+}
+
+bool conn_id_in_use(unsigned x)
+{
+  for (int h : held)
+    if (h == static_cast<int>(x))
+      return true;
+  for (auto const &c : cheld)
+    for (int h : c)
+      if (h == static_cast<int>(x))
+        return true;
+  return false;
+}
+
+void connect_into(unsigned h, unsigned s, int f, unsigned u)
+{
+  switch (sig_family(s))
+  {
+  case 0:
+    holders[h] = fcppt::signal::optional_auto_connection{usigs[s]->connect(usig_t::function{make_callback(f)}, make_unregister(u))};
+    break;
+  case 1:
+    holders[h] = fcppt::signal::optional_auto_connection{psigs[s]->connect(psig_t::function{make_callback(f)})};
+    break;
+  case 2:
+    holders[h] = fcppt::signal::optional_auto_connection{vsigs[s]->connect(vsig_t::function{make_void_callback(f)}, make_unregister(u))};
+    break;
+  default:
+    holders[h] = fcppt::signal::optional_auto_connection{wsigs[s]->connect(wsig_t::function{make_void_callback(f)})};
+  }
+  held[h] = static_cast<int>(h);
+}
+
+void run_action(int f)
+{
+  action const &ac = actions[f];
+  switch (ac.kind)
+  {
+  case 1:
+    if (held[ac.a] >= 0)
+    {
+      holders[ac.a] = fcppt::signal::optional_auto_connection{};
+      held[ac.a] = -1;
+    }
+    break;
+  case 2:
+    conts[ac.a].clear();
+    cheld[ac.a].clear();
+    break;
+  case 3:
+    if (held[ac.a] < 0 && !conn_id_in_use(ac.a) && sig_live(ac.b))
+      connect_into(ac.a, ac.b, static_cast<int>(ac.c), ac.d);
+    break;
+  default:
+    break;
+  }
 }
 
 void reset_all()
 {
+  for (auto &ac : actions)
+    ac = action{};
+  acts_on = false;
   // connections and elements first, then their lists (any order is legal; this one is the usual one)
-  for (auto &c : conns)
-    c.reset();
+  for (auto &c : conts)
+    c.clear();
+  for (auto &c : cheld)
+    c.clear();
+  for (auto &h : holders)
+    h = fcppt::signal::optional_auto_connection{};
+  for (int &h : held)
+    h = -1;
+  for (auto &i : its)
+    i = std::monostate{};
   for (auto &e : elems)
     e.reset();
   for (auto &l : lists)
@@ -272,7 +638,12 @@ void reset_all()
     s.reset();
   for (auto &s : psigs)
     s.reset();
+  for (auto &s : vsigs)
+    s.reset();
+  for (auto &s : wsigs)
+    s.reset();
   unreg_count.clear();
+  unreg_saw.clear();
 }
 
 bool num(std::string const &s, unsigned lim, unsigned &out)
@@ -316,6 +687,7 @@ std::string handle(std::vector<std::string> const &t)
   {
     if (!elems[a])
       return "bad-op";
+    drop_slots_at_elem(a);
     elems[a].reset();
     return "ok" + list_dump();
   }
@@ -354,12 +726,174 @@ std::string handle(std::vector<std::string> const &t)
     *lists[a] = std::move(*lists[b]);
     return "ok" + list_dump();
   }
+  if (o == "LS" && t.size() == 3 && num(t[1], max_lists - 1, a) && num(t[2], max_lists - 1, b))
+  {
+    if (!lists[a] || !lists[b])
+      return "bad-op";
+    std::swap(*lists[a], *lists[b]); // a == b: self-swap
+    return "ok" + list_dump();
+  }
+  if (o == "ES" && t.size() == 3 && num(t[1], max_elems - 1, a) && num(t[2], max_elems - 1, b))
+  {
+    if (!elems[a] || !elems[b])
+      return "bad-op";
+    std::swap(*elems[a], *elems[b]);
+    return "ok" + list_dump();
+  }
   if (o == "LD" && t.size() == 2 && num(t[1], max_lists, a))
   {
     if (!lists[a])
       return "bad-op";
+    drop_slots_at_head(a);
     lists[a].reset();
     return "ok" + list_dump();
+  }
+  // ---- iterator objects
+  if ((o == "IB" || o == "IE" || o == "CB" || o == "CE") && t.size() == 3 && num(t[1], max_iters, a) && num(t[2], max_lists, b))
+  {
+    if (!lists[b])
+      return "bad-op";
+    list_t const &cl = *lists[b];
+    if (o == "IB")
+      its[a] = lists[b]->begin();
+    else if (o == "IE")
+      its[a] = lists[b]->end();
+    else if (o == "CB")
+      its[a] = cl.begin();
+    else
+      its[a] = cl.end();
+    return "ok" + list_dump();
+  }
+  if ((o == "IP" || o == "CP") && t.size() == 3 && num(t[1], max_iters, a) && num(t[2], max_elems, b))
+  {
+    if (!elems[b])
+      return "bad-op";
+    if (o == "IP")
+      its[a] = it_t{static_cast<base_t *>(elems[b].get())};
+    else
+      its[a] = cit_t{static_cast<base_t const *>(elems[b].get())};
+    return "ok" + list_dump();
+  }
+  if ((o == "IN" || o == "CN") && t.size() == 2 && num(t[1], max_iters, a))
+  {
+    if (o == "IN")
+      its[a] = it_t{};
+    else
+      its[a] = cit_t{};
+    return "ok" + list_dump();
+  }
+  if (o == "IC" && t.size() == 3 && num(t[1], max_iters, a) && num(t[2], max_iters, b))
+  {
+    if (its[b].index() == 0)
+      return "bad-op";
+    slot_t const copy{its[b]};
+    its[a] = copy;
+    return "ok" + list_dump();
+  }
+  if (o == "IX" && t.size() == 2 && num(t[1], max_iters, a))
+  {
+    if (its[a].index() == 0)
+      return "bad-op";
+    its[a] = std::monostate{};
+    return "ok" + list_dump();
+  }
+  if ((o == "I+" || o == "I-" || o == "Ip" || o == "Im") && t.size() == 2 && num(t[1], max_iters, a))
+  {
+    if (its[a].index() == 0)
+      return "bad-op";
+    std::string extra;
+    bool bad = false;
+    std::visit(
+        [&](auto &it)
+        {
+          using It = std::decay_t<decltype(it)>;
+          if constexpr (std::is_same_v<It, std::monostate>)
+            bad = true;
+          else
+          {
+            if (it == It{})
+            {
+              bad = true; // nullptr->next_
+              return;
+            }
+            if (o == "I+")
+            {
+              It &r = ++it;
+              if (&r != &it)
+                extra = " ret=not-self";
+            }
+            else if (o == "I-")
+            {
+              It &r = --it;
+              if (&r != &it)
+                extra = " ret=not-self";
+            }
+            else if (o == "Ip")
+            {
+              It const r = it++;
+              extra = " ret=" + iter_name(r);
+            }
+            else
+            {
+              It const r = it--;
+              extra = " ret=" + iter_name(r);
+            }
+          }
+        },
+        its[a]);
+    if (bad)
+      return "bad-op";
+    return "ok" + list_dump() + extra;
+  }
+  if (o == "I=" && t.size() == 3 && num(t[1], max_iters, a) && num(t[2], max_iters, b))
+  {
+    if (its[a].index() == 0 || its[a].index() != its[b].index())
+      return "bad-op";
+    bool eq = false, ne = false;
+    if (auto const *p = std::get_if<it_t>(&its[a]))
+    {
+      eq = *p == std::get<it_t>(its[b]);
+      ne = *p != std::get<it_t>(its[b]);
+    }
+    else
+    {
+      eq = std::get<cit_t>(its[a]) == std::get<cit_t>(its[b]);
+      ne = std::get<cit_t>(its[a]) != std::get<cit_t>(its[b]);
+    }
+    return "ok" + list_dump() + " eq=" + (eq ? "1" : "0") + " ne=" + (ne ? "1" : "0");
+  }
+  if (o == "IS" && t.size() == 3 && num(t[1], max_iters, a) && num(t[2], max_iters, b))
+  {
+    if (its[a].index() == 0 || its[a].index() != its[b].index())
+      return "bad-op";
+    // member swap of fcppt::iterator::base (self-swap when a == b)
+    if (auto *p = std::get_if<it_t>(&its[a]))
+      p->swap(std::get<it_t>(its[b]));
+    else
+      std::get<cit_t>(its[a]).swap(std::get<cit_t>(its[b]));
+    return "ok" + list_dump();
+  }
+  if (o == "I*" && t.size() == 2 && num(t[1], max_iters, a))
+  {
+    if (its[a].index() == 0)
+      return "bad-op";
+    std::string const where = slot_name(its[a]);
+    // only an element may be dereferenced (a list head is not a `Type`)
+    if (where[0] != 'e')
+      return "bad-op";
+    base_t const *p1 = nullptr, *p2 = nullptr;
+    std::visit(
+        [&](auto &it)
+        {
+          using It = std::decay_t<decltype(it)>;
+          if constexpr (!std::is_same_v<It, std::monostate>)
+          {
+            p1 = &*it;
+            p2 = it.operator->();
+          }
+        },
+        its[a]);
+    return "ok" + list_dump() + " deref=" + (p1 == p2 ? node_name(p1) : std::string("arrow-mismatch"));
   }
   // ---- signals
   if ((o == "SN" || o == "PN") && t.size() == 3 && num(t[1], max_lists, a) && num(t[2], 64, b))
@@ -372,52 +906,176 @@ std::string handle(std::vector<std::string> const &t)
       psigs[a] = std::make_unique<psig_t>(make_combiner<psig_t>(static_cast<int>(b)));
     return "ok" + sig_dump();
   }
-  if (o == "SC" && t.size() == 5 && num(t[1], max_elems, a) && num(t[2], max_lists, b) && num(t[3], 100, c) && num(t[4], 64, d))
+  if ((o == "VN" || o == "WN") && t.size() == 2 && num(t[1], max_lists, a))
   {
-    if (conns[a] || !usigs[b])
+    if (sig_live(a))
       return "bad-op";
-    conns[a].emplace(usigs[b]->connect(
-        usig_t::function{make_callback(static_cast<int>(c))}, fcppt::signal::unregister::function{[d]
-                                            {
-                                              ++unreg_count[d];
-                                              // the dying connection must already be out of every signal
-                                              unreg_saw = sig_calls();
-                                            }}));
+    if (o == "VN")
+      vsigs[a] = std::make_unique<vsig_t>();
+    else
+      wsigs[a] = std::make_unique<wsig_t>();
     return "ok" + sig_dump();
   }
-  if (o == "PC" && t.size() == 4 && num(t[1], max_elems, a) && num(t[2], max_lists, b) && num(t[3], 100, c))
+  if ((o == "SC" || o == "VC") && t.size() == 5 && num(t[1], max_elems, a) && num(t[2], max_lists, b) && num(t[3], 100, c) && num(t[4], 64, d))
   {
-    if (conns[a] || !psigs[b])
+    if (held[a] >= 0 || conn_id_in_use(a) || sig_family(b) != (o == "SC" ? 0 : 2))
       return "bad-op";
-    conns[a].emplace(psigs[b]->connect(psig_t::function{make_callback(static_cast<int>(c))}));
+    if (o == "SC")
+      holders[a] = fcppt::signal::optional_auto_connection{
+          usigs[b]->connect(usig_t::function{make_callback(static_cast<int>(c))}, make_unregister(d))};
+    else
+      holders[a] = fcppt::signal::optional_auto_connection{
+          vsigs[b]->connect(vsig_t::function{make_void_callback(static_cast<int>(c))}, make_unregister(d))};
+    held[a] = static_cast<int>(a);
+    return "ok" + sig_dump();
+  }
+  if ((o == "PC" || o == "WC") && t.size() == 4 && num(t[1], max_elems, a) && num(t[2], max_lists, b) && num(t[3], 100, c))
+  {
+    if (held[a] >= 0 || conn_id_in_use(a) || sig_family(b) != (o == "PC" ? 1 : 3))
+      return "bad-op";
+    if (o == "PC")
+      holders[a] = fcppt::signal::optional_auto_connection{psigs[b]->connect(psig_t::function{make_callback(static_cast<int>(c))})};
+    else
+      holders[a] = fcppt::signal::optional_auto_connection{wsigs[b]->connect(wsig_t::function{make_void_callback(static_cast<int>(c))})};
+    held[a] = static_cast<int>(a);
     return "ok" + sig_dump();
   }
   if (o == "SX" && t.size() == 2 && num(t[1], max_elems, a))
   {
-    if (!conns[a])
+    if (held[a] < 0)
       return "bad-op";
-    unreg_saw = "-";
-    conns[a].reset();
-    return "ok" + sig_dump() + " saw=" + unreg_saw;
+    unreg_saw.clear();
+    holders[a] = fcppt::signal::optional_auto_connection{};
+    held[a] = -1;
+    return "ok" + sig_dump() + saw_suffix();
+  }
+  if (o == "HA" && t.size() == 3 && num(t[1], max_elems, a) && num(t[2], max_elems, b))
+  {
+    if (held[b] < 0)
+      return "bad-op";
+    unreg_saw.clear();
+    auto &src = holders[b]; // a == b: self-move-assignment, must leave the connection alone
+    holders[a] = std::move(src); // an engaged target: unique_ptr move assignment destroys the old connection
+    if (a != b)
+    {
+      held[a] = held[b];
+      held[b] = -1;
+    }
+    return "ok" + sig_dump() + saw_suffix();
+  }
+  if (o == "HW" && t.size() == 3 && num(t[1], max_elems, a) && num(t[2], max_elems, b))
+  {
+    unreg_saw.clear();
+    std::swap(holders[a], holders[b]); // a == b: self-swap
+    std::swap(held[a], held[b]);
+    return "ok" + sig_dump() + saw_suffix();
+  }
+  if (o == "KP" && t.size() == 3 && num(t[1], max_conts, a) && num(t[2], max_elems, b))
+  {
+    if (held[b] < 0)
+      return "bad-op";
+    unreg_saw.clear();
+    conts[a].push_back(std::move(holders[b].get_unsafe()));
+    cheld[a].push_back(held[b]);
+    held[b] = -1;
+    return "ok" + sig_dump() + saw_suffix();
+  }
+  if (o == "KO" && t.size() == 3 && num(t[1], max_conts, a) && num(t[2], max_elems, b))
+  {
+    if (held[b] >= 0 || cheld[a].empty())
+      return "bad-op";
+    unreg_saw.clear();
+    holders[b] = fcppt::signal::optional_auto_connection{std::move(conts[a].back())};
+    conts[a].pop_back();
+    held[b] = cheld[a].back();
+    cheld[a].pop_back();
+    return "ok" + sig_dump() + saw_suffix();
+  }
+  if (o == "KE" && t.size() == 3 && num(t[1], max_conts, a) && num(t[2], 64, b))
+  {
+    if (b >= cheld[a].size())
+      return "bad-op";
+    unreg_saw.clear();
+    conts[a].erase(conts[a].begin() + static_cast<std::ptrdiff_t>(b));
+    cheld[a].erase(cheld[a].begin() + static_cast<std::ptrdiff_t>(b));
+    return "ok" + sig_dump() + saw_suffix();
+  }
+  if (o == "KC" && t.size() == 2 && num(t[1], max_conts, a))
+  {
+    unreg_saw.clear();
+    conts[a].clear();
+    cheld[a].clear();
+    return "ok" + sig_dump() + saw_suffix();
+  }
+  if (o == "KA" && t.size() == 3 && num(t[1], max_conts, a) && num(t[2], max_conts, b))
+  {
+    if (a == b)
+      return "bad-op";
+    unreg_saw.clear();
+    conts[a] = std::move(conts[b]);
+    conts[b].clear(); // moved-from vector: valid but unspecified; libstdc++ leaves it empty
+    cheld[a] = std::move(cheld[b]);
+    cheld[b].clear();
+    return "ok" + sig_dump() + saw_suffix();
   }
   if (o == "SM" && t.size() == 3 && num(t[1], max_lists, a) && num(t[2], max_lists, b))
   {
     if (sig_live(a) || !sig_live(b))
       return "bad-op";
-    if (usigs[b])
+    switch (sig_family(b))
+    {
+    case 0:
       usigs[a] = std::make_unique<usig_t>(std::move(*usigs[b]));
-    else
+      break;
+    case 1:
       psigs[a] = std::make_unique<psig_t>(std::move(*psigs[b]));
+      break;
+    case 2:
+      vsigs[a] = std::make_unique<vsig_t>(std::move(*vsigs[b]));
+      break;
+    default:
+      wsigs[a] = std::make_unique<wsig_t>(std::move(*wsigs[b]));
+    }
     return "ok" + sig_dump();
   }
   if (o == "SA" && t.size() == 3 && num(t[1], max_lists, a) && num(t[2], max_lists, b))
   {
-    if (!sig_live(a) || !sig_live(b) || (usigs[a] != nullptr) != (usigs[b] != nullptr))
+    if (!sig_live(a) || !sig_live(b) || sig_family(a) != sig_family(b))
       return "bad-op";
-    if (usigs[a])
+    switch (sig_family(a))
+    {
+    case 0:
       *usigs[a] = std::move(*usigs[b]);
-    else
+      break;
+    case 1:
       *psigs[a] = std::move(*psigs[b]);
+      break;
+    case 2:
+      *vsigs[a] = std::move(*vsigs[b]);
+      break;
+    default:
+      *wsigs[a] = std::move(*wsigs[b]);
+    }
+    return "ok" + sig_dump();
+  }
+  if (o == "SS" && t.size() == 3 && num(t[1], max_lists - 1, a) && num(t[2], max_lists - 1, b))
+  {
+    if (!sig_live(a) || !sig_live(b) || sig_family(a) != sig_family(b))
+      return "bad-op";
+    switch (sig_family(a))
+    {
+    case 0:
+      std::swap(*usigs[a], *usigs[b]);
+      break;
+    case 1:
+      std::swap(*psigs[a], *psigs[b]);
+      break;
+    case 2:
+      std::swap(*vsigs[a], *vsigs[b]);
+      break;
+    default:
+      std::swap(*wsigs[a], *wsigs[b]);
+    }
     return "ok" + sig_dump();
   }
   if (o == "SD" && t.size() == 2 && num(t[1], max_lists, a))
@@ -426,13 +1084,57 @@ std::string handle(std::vector<std::string> const &t)
       return "bad-op";
     usigs[a].reset();
     psigs[a].reset();
+    vsigs[a].reset();
+    wsigs[a].reset();
     return "ok" + sig_dump();
+  }
+  if (o == "AN" && t.size() == 2 && num(t[1], 100, a))
+  {
+    actions[a] = action{};
+    return "ok";
+  }
+  if (o == "AR" && t.size() == 3 && num(t[1], 100, a) && num(t[2], max_elems, b))
+  {
+    actions[a] = action{1, b, 0, 0, 0};
+    return "ok";
+  }
+  if (o == "AK" && t.size() == 3 && num(t[1], 100, a) && num(t[2], max_conts, b))
+  {
+    actions[a] = action{2, b, 0, 0, 0};
+    return "ok";
+  }
+  if (o == "AC" && t.size() == 6 && num(t[1], 100, a) && num(t[2], max_elems, b) && num(t[3], max_lists, c) && num(t[4], 100, d))
+  {
+    unsigned u = 0;
+    if (!num(t[5], 64, u))
+      return "bad-op";
+    actions[a] = action{3, b, c, d, u};
+    return "ok";
+  }
+  if ((o == "rcall" && t.size() == 4 && num(t[1], max_lists, a) && num(t[2], 1000, b) && num(t[3], 1000, c)) ||
+      (o == "rvcall" && t.size() == 3 && num(t[1], max_lists, a) && num(t[2], 1000, c)))
+  {
+    if (!sig_live(a) || (sig_family(a) >= 2) != (o == "rvcall"))
+      return "bad-op";
+    unreg_saw.clear();
+    acts_on = true;
+    std::string const r = call_any(a, o == "rcall" ? static_cast<int>(b) : 0, static_cast<int>(c));
+    acts_on = false;
+    if (r == "overrun" || r == "nocomb")
+      return "ok " + r;
+    return "ok " + r + sig_dump();
   }
   if (o == "call" && t.size() == 4 && num(t[1], max_lists, a) && num(t[2], 1000, b) && num(t[3], 1000, c))
   {
-    if (!sig_live(a))
+    if (!sig_live(a) || sig_family(a) >= 2)
       return "bad-op";
     return "ok " + call_any(a, static_cast<int>(b), static_cast<int>(c));
+  }
+  if (o == "vcall" && t.size() == 3 && num(t[1], max_lists, a) && num(t[2], 1000, b))
+  {
+    if (!sig_live(a) || sig_family(a) < 2)
+      return "bad-op";
+    return "ok " + call_any(a, 0, static_cast<int>(b));
   }
   return "bad-op";
 }
